@@ -338,11 +338,26 @@ def run_check(spec, tier='quick', seed=0, jobs=None, keep=False, verbose=True):
                 t.opts = dict(t.opts, xcheck=1)
         for t in tasks:
             submit(t, t.prefixes)
-        deadline = time.time() + spec.budget_s(tier) if hasattr(spec, 'budget_s') else None
+        # wall-clock budget of the exploration (a mutated tree can make a harness explode): spec.budget_s, else 25 min
+        # for the quick tier and 8 h for the thorough one; running out of it without a violation is INCONCLUSIVE. Once a
+        # violation has been recorded the exploration goes on for at most 90 s (quick) / 10 min (thorough) more.
+        budget = spec.budget_s(tier) if hasattr(spec, 'budget_s') else int(os.environ.get('VERIF_BUDGET_S', 1500 if tier == 'quick' else 8 * 3600))
+        deadline = time.time() + budget
+        grace = 90 if tier == 'quick' else 600
+        first_violation_at = None
         timed_out = False
+        stopped_early = False
         last_log = time.time()
         ndone = 0
         while pending:
+            if violations and first_violation_at is None:
+                first_violation_at = time.time()
+            if first_violation_at is not None and time.time() - first_violation_at > grace:
+                stopped_early = True
+                break
+            if time.time() > deadline:
+                timed_out = True
+                break
             if time.time() - last_log > 30:
                 last_log = time.time()
                 log('[%s] ... %d task runs done, %d pending, paths=%d, %.0fs' % (pid, ndone, pending, agg['paths'], time.time() - t_start))
@@ -400,7 +415,14 @@ def run_check(spec, tier='quick', seed=0, jobs=None, keep=False, verbose=True):
                     if chunk:
                         submit(t, chunk)
         if timed_out:
-            inconclusive.append('time budget exceeded with %d tasks pending' % pending)
+            inconclusive.append('time budget (%d s) exceeded with %d tasks pending' % (budget, pending))
+        if stopped_early:
+            log('[%s] violation recorded %.0f s ago: remaining exploration (%d task runs pending) skipped' % (pid, time.time() - first_violation_at, pending))
+        if timed_out or stopped_early:
+            # workers are still busy with abandoned tasks: replace the pool (it is reused for confirmations below)
+            pool.terminate()
+            pool.join()
+            pool = ctx.Pool(min(jobs, 4), initializer=_worker_init, initargs=(jpath, base_opts))
         log('[%s] explored: paths=%d instrs=%d obligations=%d discharged=%d queries=%d solver=%.1fs violations=%d inconclusive=%d errors=%d (%.1fs)' % (
             pid, agg['paths'], agg['instrs'], agg['obligations'], agg['discharged'], agg['queries'], agg['solver_s'],
             len(violations), len(inconclusive), len(errors), time.time() - t_start))
@@ -409,7 +431,7 @@ def run_check(spec, tier='quick', seed=0, jobs=None, keep=False, verbose=True):
         log('[%s] slowest tasks: %s' % (pid, ', '.join('%s %.1fs/%dp' % (k, v['wall'], v['paths']) for k, v in slow)))
         # vacuity: every required tag must be reached
         missing = [tg for tg in spec.required_reach(tier) if reach.get(tg, 0) == 0]
-        if missing:
+        if missing and not stopped_early:
             inconclusive.append('vacuity: tags never reached: %s' % missing)
 
         # ---- native side: validate encoding on sampled paths, replay violations
